@@ -29,6 +29,16 @@ TABLEAU = {
 }
 
 
+# textbook error weights b - b_hat (including the FSAL stage) of the Bogacki-Shampine 3(2) and Dormand-Prince 5(4)
+# pairs.  Used ONLY to recognise steps on which the embedded estimate of the textbook pair is blind (estimate below
+# the tolerance although the true local error is far above it): such an instance cannot be held against the
+# implementation, any correct implementation of the pair accepts the step.  Never used to flag a violation.
+EMB_E = {
+    "rk23": [5.0 / 72.0, -1.0 / 12.0, -1.0 / 9.0, 1.0 / 8.0],
+    "rk45": [-71.0 / 57600.0, 0.0, 71.0 / 16695.0, -71.0 / 1920.0, 17253.0 / 339200.0, -22.0 / 525.0, 1.0 / 40.0],
+}
+
+
 def eps_of(dtype):
     return torch.finfo(dtype).eps
 
